@@ -26,12 +26,12 @@ type c14RS struct {
 }
 
 type c14Case struct {
-	Strategy   bool // canary strategy present
-	RS         []c14RS
-	ActiveIdx  int // which replica set status.activeReplicaSet names
+	Strategy    bool // canary strategy present
+	RS          []c14RS
+	ActiveIdx   int // which replica set status.activeReplicaSet names
 	Annotations map[string]string
-	PrevCanary bool // status.canary already set before the reconcile
-	Valid      bool // canary-valid names the matching set
+	PrevCanary  bool // status.canary already set before the reconcile
+	Valid       bool // canary-valid names the matching set
 }
 
 func (k c14Case) String() string { b, _ := json.Marshal(k); return string(b) }
